@@ -519,6 +519,109 @@ def check_pieces(ctx, res, prob, labels, lname, model, db, r, W1):
         ctx.batch.add(req, cb)
 
 
+def symbolic_marginal(model, k, x, eps, db):
+    """marginal utility from the *symbolic* utility on the real row (engine gradient): does not go
+    through calculate_baseline_utility or any stored value"""
+    from biogeme.expressions import Beta, Numeric
+
+    ex = model.utility_expression_one_alternative(the_id=k, the_consumption=Beta('consumption', float(x), None, None, 0), unscaled_epsilon=Numeric(float(eps)))
+    fo = ex.get_value_and_derivatives(database=db, prepare_ids=True, gradient=True, named_results=True)
+    return float(fo.gradient['consumption'])
+
+
+def oracle_symbolic(model, db, prob, labels, e, x_by_label):
+    """KKT on a forecast with the marginal utilities taken from the symbolic utility"""
+    budget = prob['budget']
+    if any(not (v >= 0) for v in x_by_label.values()):
+        return 'a consumption is negative or NaN'
+    tot = sum(x_by_label.values())
+    if abs(tot - budget) > TOL_BUDGET * max(1.0, budget):
+        return f'budget not exhausted: sum = {tot!r}'
+    og = None if prob['outside'] is None else labels[prob['outside']]
+    marg = {k: symbolic_marginal(model, k, v, e[model.key_to_index[k]], db) for k, v in x_by_label.items() if v > 0 or k != og}
+    pos = [marg[k] for k, v in x_by_label.items() if v > 0]
+    if not pos:
+        return 'nothing is consumed'
+    lam = max(pos)
+    if lam - min(pos) > TOL_MARG * max(1.0, abs(lam)):
+        return f'symbolic marginal utilities of the consumed goods differ: { {k: marg[k] for k, v in x_by_label.items() if v > 0} }'
+    for k, v in x_by_label.items():
+        if v == 0 and marg[k] > lam + TOL_MARG * max(1.0, abs(lam)):
+            return f'alternative {k} is not consumed although its symbolic marginal utility at zero {marg[k]} exceeds {lam}'
+    return None
+
+
+def scenario_rows(prob):
+    """a second scenario: same number of observations, changed explanatory variables"""
+    return [{'x': -r['x'] + 0.625 + 0.25 * i, 'z': r['z'] + 0.75} for i, r in enumerate(prob['rows'])]
+
+
+def check_scenarios(ctx, res, prob, labels, lname):
+    """the SAME model object is used on a base scenario and then on a changed scenario (another
+    database whose rows carry the same names, and the same database with modified data): the second
+    results must be those of a freshly built model, validation must stay silent and the forecast
+    must solve the problem of the *new* observation"""
+    import pandas as pd
+    from biogeme.database import Database
+
+    rows2 = scenario_rows(prob)
+    prob2 = {**prob, 'rows': rows2}
+    sub = {'problem': prob, 'labels': labels, 'labeling': lname, 'scenario': True}
+    og_label = None if prob['outside'] is None else labels[prob['outside']]
+    with core.scratch():
+        model, err = safe(build_model, prob, labels)
+        fresh, err2 = safe(build_model, prob, labels)
+        if model is None or fresh is None:
+            return
+        eps = [np.array([eps_vector(model, labels, ea) for ea in prob['eps'][r]]) for r in range(len(prob['rows']))]
+        base_db = Database('scenario', pd.DataFrame(prob['rows']))
+        out1, e1 = safe(model.forecast, base_db, prob['budget'], eps, False, 1e-13, 1e-13)
+        # also the one-row route on the base scenario (rows named as Mdcev.forecast names them)
+        for r in range(len(prob['rows'])):
+            safe(model.validation, Database(f'row_{r}', pd.DataFrame([prob['rows'][r]])))
+        # (a) another database, (b) the same database object with modified data
+        for mode in ('other_database', 'same_database_modified'):
+            if mode == 'other_database':
+                db2 = Database('policy', pd.DataFrame(rows2))
+            else:
+                base_db.data['x'] = [r['x'] for r in rows2]
+                base_db.data['z'] = [r['z'] for r in rows2]
+                db2 = base_db
+            res.count({'scenario': mode, 'v': prob['variant'], 'labels': labels, 'rows2': rows2}, nontrivial=any(b != 0 for b in prob['psi_b']))
+            res.tally(f'scenario:{mode}')
+            out2, e2 = safe(model.forecast, db2, prob['budget'], eps, False, 1e-13, 1e-13)
+            ref_db = Database('reference', pd.DataFrame(rows2))
+            ref, e3 = safe(fresh.forecast, ref_db, prob['budget'], eps, False, 1e-13, 1e-13)
+            if (out2 is None) != (ref is None):
+                res.violate(f'second scenario on a re-used model: {e2}; freshly built model: {e3}', {**sub, 'mode': mode}, e2, e3, where='Mdcev.forecast (re-used model)')
+                continue
+            if out2 is None:
+                continue
+            for r, (df2, dfr) in enumerate(zip(out2, ref)):
+                a = [[float(v) for v in df2[k]] for k in sorted(labels)]
+                b = [[float(v) for v in dfr[k]] for k in sorted(labels)]
+                if any(not close(u, v, 1e-9, 1e-12) for ra, rb in zip(a, b) for u, v in zip(ra, rb)):
+                    res.violate('forecast of a changed scenario with a re-used model object differs from a freshly built model',
+                                {**sub, 'mode': mode, 'row': r}, {k: v for k, v in zip(sorted(labels), a)}, {k: v for k, v in zip(sorted(labels), b)},
+                                where='Mdcev.forecast (re-used model)')
+                # KKT from the symbolic utility on the real new row (first draw)
+                row2 = Database(f'row_{r}', pd.DataFrame([rows2[r]]))
+                x_by_label = {k: float(df2[k].iloc[0]) for k in labels}
+                why, oerr = safe(oracle_symbolic, model, row2, prob2, labels, eps[r][0], x_by_label)
+                if oerr is None and why:
+                    res.violate(f'forecast of the changed scenario (re-used model): {why}', {**sub, 'mode': mode, 'row': r}, x_by_label,
+                                'KKT point of the new observation (symbolic marginal utilities)', where='Mdcev.forecast (re-used model)')
+                # pieces on the new row with the re-used model: numeric = symbolic
+                val, verr = safe(model.validation, row2)
+                if val is None or val:
+                    res.violate(f'Mdcev.validation on the changed scenario (re-used model): {val if val is not None else verr}',
+                                {**sub, 'mode': mode, 'row': r}, val if val is not None else verr, [], where='Mdcev.validation (re-used model)')
+                one, oerr = safe(model.forecast_bisection_one_draw, row2, prob['budget'], eps[r][0].copy(), 1e-13, 1e-13)
+                if one is not None and any(not close(float(one[k]), x_by_label[k], 1e-9, 1e-12) for k in labels):
+                    res.violate('forecast_bisection_one_draw on the new row differs from Mdcev.forecast of the same row (re-used model)',
+                                {**sub, 'mode': mode, 'row': r}, {int(k): float(v) for k, v in one.items()}, x_by_label, where='Mdcev.forecast (re-used model)')
+
+
 # ----------------------------------------------------------------------------- corpus / check / search / replay
 
 # input of known finding F-C18-1 (kept identical to known_findings.d/C18.json)
@@ -599,6 +702,7 @@ def check(ctx) -> Result:
     rng = ctx.rng
     for prob, labs in CORPUS:
         check_problem(ctx, res, prob, labs)
+        check_scenarios(ctx, res, prob, labs['sparse'], 'sparse')
         res.tally('corpus')
     # the listed known findings: their own inputs first
     check_problem(ctx, res, KNOWN_F_C18_1, KNOWN_F_C18_1_LABELS, pieces=False)
@@ -615,6 +719,9 @@ def check(ctx) -> Result:
         prob = gen_problem(rng, variant=VARIANTS[i % 4])
         labs = main_labelings(rng, prob)
         check_problem(ctx, res, prob, labs, brute=(i % 2 == 0), pieces=(i % 3 == 0), comparison=(i < n_cmp))
+        if i % (5 if ctx.quick else 3) == 1 and labs:
+            ln = sorted(labs)[i % len(labs)]
+            check_scenarios(ctx, res, prob, labs[ln], ln)
         if sum(1 for v in res.violations if v.get('where') not in (F_C18_1_WHERE, F_C18_2_WHERE)) > 5:
             break
     for _ in range(ctx.n(30, 300)):
@@ -645,7 +752,11 @@ def search(ctx, res, broken):
         r2 = Result()
         prob = gen_problem(rng, variant=VARIANTS[i % 4])
         try:
-            check_problem(shim, r2, prob, main_labelings(rng, prob), brute=True, pieces=True)
+            labs = main_labelings(rng, prob)
+            check_problem(shim, r2, prob, labs, brute=True, pieces=True)
+            if labs:
+                ln = sorted(labs)[0]
+                check_scenarios(shim, r2, prob, labs[ln], ln)
         except Exception as e:  # noqa: BLE001
             res.notes.append(f'search: {type(e).__name__}: {e}')
             continue
@@ -671,6 +782,10 @@ def replay(ctx, obj):
         labs = {'other': sub['other_labels'], **labs}
     r = Result()
     shim = _Shim(core.rng_for('C18-replay', 0))
+    if sub.get('scenario'):
+        check_scenarios(shim, r, prob, sub['labels'], sub.get('labeling', 'given'))
+        out.update({'property_fails': bool(r.violations), 'violations': [{'what': v['what'], 'observed': v['observed'], 'expected': v['expected']} for v in r.violations[:3]]})
+        return out
     check_problem(shim, r, prob, labs, brute=True, pieces=bool(sub.get('pieces')), comparison='reports differently' in str(obj.get('what')))
     out.update({'property_fails': bool(r.violations), 'violations': [{'what': v['what'], 'observed': v['observed'], 'expected': v['expected']} for v in r.violations[:3]]})
     return out
